@@ -53,9 +53,26 @@ def viewContent (hp : Heap) (nv : String × View) : ViewContent :=
 def isIntRange (r : String) : Bool :=
   r == "uima.cas.Integer" || r == "uima.cas.Short" || r == "uima.cas.Long" || r == "uima.cas.Byte"
 
+/-- the reserved names.  A feature declared as `self` / `type` is stored under the Python name `self_` / `type_` with
+    `reserved = true` (`createFeature`); the writers strip the underscore (`renderFeature`: the name written is the
+    stored name without its last character), the readers add it again to the attributes / keys / child elements `self`
+    and `type`.  So either the feature is not reserved, or it is one of the two features `createFeature` marks as
+    reserved.  (Evaluated on the model for every range kind, XMI and JSON: `Spec/RoundTripCollCheck.lean`, section
+    "reserved names", and `Spec/RoundTripJsonCollCheck.lean`.)
+
+    Together with the conditions `f.name ≠ "type"`, `f.name ≠ "self"`, … that accompany it in `FlatFeat`, `NameOk`,
+    `JFeatOk` this says: EITHER `f.reserved = false` and the stored name is none of the strings the codecs treat
+    specially, OR `f.reserved = true` and the stored name is `self_` or `type_` (which are none of these strings).
+    A feature that is not reserved must not be named `self` / `type` (impossible through `createFeature`): the readers
+    would rename it. -/
+def ResOk (f : Feature) : Prop :=
+  f.reserved = false ∨ (f.reserved = true ∧ (f.name = "self_" ∨ f.name = "type_"))
+
+instance (f : Feature) : Decidable (ResOk f) := by unfold ResOk; infer_instance
+
 /-- one feature of a flat structure -/
 def FlatFeat (K : Consts) (ts : TypeSystem) (c : Cas) (ci : Nat) (hp : Heap) (isAnn : Bool) (o : Obj) (f : Feature) : Prop :=
-  f.reserved = false ∧ f.name ≠ "xmiID" ∧ f.name ≠ "type" ∧ f.name ≠ "self" ∧ f.name ≠ ID ∧
+  ResOk f ∧ f.name ≠ "xmiID" ∧ f.name ≠ "type" ∧ f.name ≠ "self" ∧ f.name ≠ ID ∧
   -- the range is not a collection in any of the senses the codec tests (automatic for the generated constants `K`
   -- and a consistent type system; needed because `K` and `ts` are arbitrary here)
   isPrimitiveArray K f.range = false ∧ isPrimitiveList K f.range = false ∧ f.range ≠ FS_ARRAY ∧ f.range ≠ FS_LIST ∧
